@@ -17,7 +17,7 @@ import (
 type Family struct {
 	Name string
 	Cost int // relative cost of one case (1 = a few hundred microseconds)
-	Gen  func(w *world, thorough bool, emit func(Case))
+	Gen  func(w *world, thorough bool, emit func(func() Case))
 }
 
 func remoteNodeID() p2p.NodeID {
@@ -150,26 +150,26 @@ func frameFamilies(w *world) []*Family {
 		Hash [32]byte
 	}{3, w.hash("C")})) }
 	var fams []*Family
-	add := func(name string, cost int, gen func(thorough bool, emit func(Case))) {
-		fams = append(fams, &Family{Name: "frame/" + name, Cost: cost, Gen: func(_ *world, th bool, emit func(Case)) { gen(th, emit) }})
+	add := func(name string, cost int, gen func(thorough bool, emit func(func() Case))) {
+		fams = append(fams, &Family{Name: "frame/" + name, Cost: cost, Gen: func(_ *world, th bool, emit func(func() Case)) { gen(th, emit) }})
 	}
 	ends := []struct {
 		n string
 		e error
 	}{{"eof", io.EOF}, {"silent", errTimeout}}
 
-	add("valid", 1, func(th bool, emit func(Case)) {
+	add("valid", 1, func(th bool, emit func(func() Case)) {
 		for _, s := range w.samples() {
 			s := s
 			for _, e := range ends {
 				e := e
-				emit(Case{Name: fmt.Sprintf("frame/valid/%s/then-%s", s.name, e.n), Run: func(m *meter) string {
+				emit(func() Case { return Case{Name: fmt.Sprintf("frame/valid/%s/then-%s", s.name, e.n), Run: func(m *meter) string {
 					return playFrames(m, e.e, frame(fixedSession, s.code, s.payload))
-				}})
+				}} })
 			}
 		}
 	})
-	add("code", 1, func(th bool, emit func(Case)) {
+	add("code", 1, func(th bool, emit func(func() Case)) {
 		codes := []uint32{}
 		for c := uint32(0); c <= 0x21; c++ {
 			codes = append(codes, c)
@@ -179,13 +179,13 @@ func frameFamilies(w *world) []*Family {
 			c := c
 			for _, pl := range [][]byte{nil, {0xc0}, bytes.Repeat([]byte{0x80}, 40)} {
 				pl := pl
-				emit(Case{Name: fmt.Sprintf("frame/code/%08x/payload=%d", c, len(pl)), Run: func(m *meter) string {
+				emit(func() Case { return Case{Name: fmt.Sprintf("frame/code/%08x/payload=%d", c, len(pl)), Run: func(m *meter) string {
 					return playFrames(m, io.EOF, frame(fixedSession, c, pl), statusReqFrame())
-				}})
+				}} })
 			}
 		}
 	})
-	add("ctlen", 1, func(th bool, emit func(Case)) {
+	add("ctlen", 1, func(th bool, emit func(func() Case)) {
 		// ciphertexts of every length 0..64 (and a few larger ones): arbitrary bytes and a correct
 		// encryption cut short
 		good := cbc(fixedSession, pad(plainOf(0x04, bytes.Repeat([]byte{0x80}, 90))))
@@ -198,7 +198,7 @@ func frameFamilies(w *world) []*Family {
 			l := l
 			for _, kind := range []string{"zeros", "ff", "cut"} {
 				kind := kind
-				emit(Case{Name: fmt.Sprintf("frame/ctlen/len=%05d/%s", l, kind), Run: func(m *meter) string {
+				emit(func() Case { return Case{Name: fmt.Sprintf("frame/ctlen/len=%05d/%s", l, kind), Run: func(m *meter) string {
 					var body []byte
 					switch kind {
 					case "zeros":
@@ -213,11 +213,11 @@ func frameFamilies(w *world) []*Family {
 						}
 					}
 					return playFrames(m, io.EOF, packet(body), statusReqFrame())
-				}})
+				}} })
 			}
 		}
 	})
-	add("declared", 40, func(th bool, emit func(Case)) {
+	add("declared", 40, func(th bool, emit func(func() Case)) {
 		// the length field against what really follows
 		decl := []uint32{0, 1, 15, 16, 17, 31, 32, 33, 1 << 16, 1 << 20, maxFrame - 1, maxFrame, maxFrame + 1, 1 << 31, 1<<32 - 1}
 		for _, d := range decl {
@@ -226,13 +226,13 @@ func frameFamilies(w *world) []*Family {
 				follow := follow
 				for _, e := range ends {
 					e := e
-					emit(Case{Name: fmt.Sprintf("frame/declared/%d/follow=%d/then-%s", d, follow, e.n), Run: func(m *meter) string {
+					emit(func() Case { return Case{Name: fmt.Sprintf("frame/declared/%d/follow=%d/then-%s", d, follow, e.n), Run: func(m *meter) string {
 						body := cbc(fixedSession, pad(plainOf(0x04, enc(struct{ R uint32 }{0}))))
 						for len(body) < follow {
 							body = append(body, body...)
 						}
 						return playFrames(m, e.e, packetLen(d, body[:follow]))
-					}})
+					}} })
 				}
 			}
 		}
@@ -241,7 +241,7 @@ func frameFamilies(w *world) []*Family {
 			size := size
 			for _, valid := range []bool{false, true} {
 				valid := valid
-				emit(Case{Name: fmt.Sprintf("frame/declared/full=%d/valid=%v", size, valid), Run: func(m *meter) string {
+				emit(func() Case { return Case{Name: fmt.Sprintf("frame/declared/full=%d/valid=%v", size, valid), Run: func(m *meter) string {
 					var body []byte
 					if valid {
 						body = cbc(fixedSession, pad(plainOf(0x1f, make([]byte, size-4-1))))
@@ -249,11 +249,11 @@ func frameFamilies(w *world) []*Family {
 						body = make([]byte, size)
 					}
 					return playFrames(m, io.EOF, packet(body))
-				}})
+				}} })
 			}
 		}
 	})
-	add("magic", 1, func(th bool, emit func(Case)) {
+	add("magic", 1, func(th bool, emit func(func() Case)) {
 		fr := sample()
 		for pos := 0; pos < 2; pos++ {
 			for v := 0; v < 256; v++ {
@@ -261,13 +261,13 @@ func frameFamilies(w *world) []*Family {
 					continue
 				}
 				pos, v := pos, v
-				emit(Case{Name: fmt.Sprintf("frame/magic/pos=%d/val=%02x", pos, v), Run: func(m *meter) string {
+				emit(func() Case { return Case{Name: fmt.Sprintf("frame/magic/pos=%d/val=%02x", pos, v), Run: func(m *meter) string {
 					return playFrames(m, io.EOF, withByte(fr, pos, byte(v)), statusReqFrame())
-				}})
+				}} })
 			}
 		}
 	})
-	add("mut", 1, func(th bool, emit func(Case)) {
+	add("mut", 1, func(th bool, emit func(func() Case)) {
 		// single byte mutations of whole valid frames (header and ciphertext)
 		for _, s := range w.samples() {
 			if !th && !s.quick {
@@ -281,21 +281,21 @@ func frameFamilies(w *world) []*Family {
 			for pos := range fr {
 				for _, v := range byteVals(fr[pos], th) {
 					pos, v := pos, v
-					emit(Case{Name: fmt.Sprintf("frame/mut/%s/pos=%03d/val=%02x", s.name, pos, v), Run: func(m *meter) string {
+					emit(func() Case { return Case{Name: fmt.Sprintf("frame/mut/%s/pos=%03d/val=%02x", s.name, pos, v), Run: func(m *meter) string {
 						return playFrames(m, errTimeout, withByte(fr, pos, v), statusReqFrame())
-					}})
+					}} })
 				}
 			}
 		}
 	})
-	add("pad", 1, func(th bool, emit func(Case)) {
+	add("pad", 1, func(th bool, emit func(func() Case)) {
 		// correctly encrypted blocks whose padding is wrong: every value of the last byte, for
 		// plaintexts of 1 and 2 blocks; and a padding that covers the whole plaintext
 		for _, blocks := range []int{1, 2, 3} {
 			for v := 0; v < 256; v++ {
 				for _, fill := range []string{"same", "zero"} {
 					blocks, v, fill := blocks, v, fill
-					emit(Case{Name: fmt.Sprintf("frame/pad/blocks=%d/last=%02x/%s", blocks, v, fill), Run: func(m *meter) string {
+					emit(func() Case { return Case{Name: fmt.Sprintf("frame/pad/blocks=%d/last=%02x/%s", blocks, v, fill), Run: func(m *meter) string {
 						pl := make([]byte, 16*blocks)
 						binary.BigEndian.PutUint32(pl, 0x04)
 						if fill == "same" {
@@ -305,38 +305,38 @@ func frameFamilies(w *world) []*Family {
 						}
 						pl[len(pl)-1] = byte(v)
 						return playFrames(m, io.EOF, packet(cbc(fixedSession, pl)), statusReqFrame())
-					}})
+					}} })
 				}
 			}
 		}
 	})
-	add("plainlen", 1, func(th bool, emit func(Case)) {
+	add("plainlen", 1, func(th bool, emit func(func() Case)) {
 		// correct encryption of plaintexts of every length 0..64: shorter than the code, the code
 		// alone, code and payload
 		for l := 0; l <= 64; l++ {
 			for _, fill := range []byte{0x00, 0x04, 0xff} {
 				l, fill := l, fill
-				emit(Case{Name: fmt.Sprintf("frame/plainlen/len=%02d/fill=%02x", l, fill), Run: func(m *meter) string {
+				emit(func() Case { return Case{Name: fmt.Sprintf("frame/plainlen/len=%02d/fill=%02x", l, fill), Run: func(m *meter) string {
 					return playFrames(m, io.EOF, framePlain(fixedSession, bytes.Repeat([]byte{fill}, l)), statusReqFrame())
-				}})
+				}} })
 			}
 		}
 	})
-	add("plain1", 1, func(th bool, emit func(Case)) {
+	add("plain1", 1, func(th bool, emit func(func() Case)) {
 		// every value of every byte of a 4..6 byte plaintext around a valid code
 		for l := 1; l <= 6; l++ {
 			base := plainOf(0x04, []byte{0xc1, 0x80})[:l]
 			for pos := 0; pos < l; pos++ {
 				for v := 0; v < 256; v++ {
 					l, pos, v := l, pos, v
-					emit(Case{Name: fmt.Sprintf("frame/plain1/len=%d/pos=%d/val=%02x", l, pos, v), Run: func(m *meter) string {
+					emit(func() Case { return Case{Name: fmt.Sprintf("frame/plain1/len=%d/pos=%d/val=%02x", l, pos, v), Run: func(m *meter) string {
 						return playFrames(m, io.EOF, framePlain(fixedSession, withByte(base, pos, byte(v))))
-					}})
+					}} })
 				}
 			}
 		}
 	})
-	add("plain2", 1, func(th bool, emit func(Case)) {
+	add("plain2", 1, func(th bool, emit func(func() Case)) {
 		// single byte mutations (RLP boundary bytes) of the plaintext of valid frames
 		for _, s := range w.samples() {
 			if !th && !s.quick {
@@ -350,34 +350,34 @@ func frameFamilies(w *world) []*Family {
 			for pos := range pl {
 				for _, v := range boundaryVals(pl[pos], th) {
 					pos, v := pos, v
-					emit(Case{Name: fmt.Sprintf("frame/plain2/%s/pos=%03d/val=%02x", s.name, pos, v), Run: func(m *meter) string {
+					emit(func() Case { return Case{Name: fmt.Sprintf("frame/plain2/%s/pos=%03d/val=%02x", s.name, pos, v), Run: func(m *meter) string {
 						return playFrames(m, io.EOF, framePlain(fixedSession, withByte(pl, pos, v)))
-					}})
+					}} })
 				}
 			}
 		}
 	})
-	add("prefix", 1, func(th bool, emit func(Case)) {
+	add("prefix", 1, func(th bool, emit func(func() Case)) {
 		// every truncation of a valid frame (and of two frames), then EOF / silence
 		fr := append(sample(), statusReqFrame()...)
 		for cut := 0; cut <= len(fr); cut++ {
 			for _, e := range ends {
 				cut, e := cut, e
-				emit(Case{Name: fmt.Sprintf("frame/prefix/cut=%03d/then-%s", cut, e.n), Run: func(m *meter) string {
+				emit(func() Case { return Case{Name: fmt.Sprintf("frame/prefix/cut=%03d/then-%s", cut, e.n), Run: func(m *meter) string {
 					return playFrames(m, e.e, fr[:cut])
-				}})
+				}} })
 			}
 		}
 	})
-	add("split", 1, func(th bool, emit func(Case)) {
+	add("split", 1, func(th bool, emit func(func() Case)) {
 		// every split of a frame into two reads (also inside the magic and the length field), and into
 		// three reads; one byte per read
 		fr := sample()
 		for a := 0; a <= len(fr); a++ {
 			a := a
-			emit(Case{Name: fmt.Sprintf("frame/split/2/at=%03d", a), Run: func(m *meter) string {
+			emit(func() Case { return Case{Name: fmt.Sprintf("frame/split/2/at=%03d", a), Run: func(m *meter) string {
 				return playFrames(m, io.EOF, fr[:a], fr[a:], statusReqFrame())
-			}})
+			}} })
 		}
 		lim := 12
 		if th {
@@ -386,33 +386,33 @@ func frameFamilies(w *world) []*Family {
 		for a := 0; a <= lim; a++ {
 			for b := a; b <= lim; b++ {
 				a, b := a, b
-				emit(Case{Name: fmt.Sprintf("frame/split/3/at=%03d,%03d", a, b), Run: func(m *meter) string {
+				emit(func() Case { return Case{Name: fmt.Sprintf("frame/split/3/at=%03d,%03d", a, b), Run: func(m *meter) string {
 					return playFrames(m, io.EOF, fr[:a], fr[a:b], fr[b:], statusReqFrame())
-				}})
+				}} })
 			}
 		}
-		emit(Case{Name: "frame/split/bytewise", Run: func(m *meter) string {
+		emit(func() Case { return Case{Name: "frame/split/bytewise", Run: func(m *meter) string {
 			var ch [][]byte
 			for i := range fr {
 				ch = append(ch, fr[i:i+1])
 			}
 			return playFrames(m, io.EOF, ch...)
-		}})
+		}} })
 	})
-	add("seq", 2, func(th bool, emit func(Case)) {
+	add("seq", 2, func(th bool, emit func(func() Case)) {
 		// many frames back to back: more than the peer's message queue holds; heartbeats only; a bad
 		// frame after good ones
 		for _, n := range []int{2, 10, 11, 12, 13, 100, 1000} {
 			n := n
-			emit(Case{Name: fmt.Sprintf("frame/seq/status-requests=%d", n), Run: func(m *meter) string {
+			emit(func() Case { return Case{Name: fmt.Sprintf("frame/seq/status-requests=%d", n), Run: func(m *meter) string {
 				return playFrames(m, io.EOF, bytes.Repeat(statusReqFrame(), n))
-			}})
-			emit(Case{Name: fmt.Sprintf("frame/seq/heartbeats=%d", n), Run: func(m *meter) string {
+			}} })
+			emit(func() Case { return Case{Name: fmt.Sprintf("frame/seq/heartbeats=%d", n), Run: func(m *meter) string {
 				return playFrames(m, errTimeout, bytes.Repeat(frame(fixedSession, 0x01, nil), n))
-			}})
-			emit(Case{Name: fmt.Sprintf("frame/seq/good=%d-then-bad", n), Run: func(m *meter) string {
+			}} })
+			emit(func() Case { return Case{Name: fmt.Sprintf("frame/seq/good=%d-then-bad", n), Run: func(m *meter) string {
 				return playFrames(m, io.EOF, bytes.Repeat(statusReqFrame(), n), packet(make([]byte, 7)), statusReqFrame())
-			}})
+			}} })
 		}
 	})
 	return fams
